@@ -773,7 +773,7 @@ func c46clean(c *rig.Ctx, x *sqlrig.Session, ddb *doltdb.DoltDB, ref *ignoreRef,
 			}
 		}
 		if len(named) == 0 {
-			named = untracked[:1]
+			named = append([]string(nil), untracked[0])
 		}
 		if r.Intn(3) == 0 {
 			for n := range staged { // also name a tracked table: it must survive
